@@ -45,7 +45,7 @@ func runC44(c *an.Ctx) {
 
 	n := guardedCalls(c, "guard-destroyed", "PutContract is reachable only after GetContract reported not-destroyed without error (directly or via a discovered wrapper)",
 		putContract, g1, nil, nil)
-	c.RequireMin("PutContract call sites", n, 5)
+	c.RequireMin("PutContract call sites", n, 2)
 
 	// the address checked is the address of the contract stored
 	addrM := mustObj(c, "core/payload.(*DeployCode).Address")
